@@ -182,8 +182,10 @@ def advertised_suite(ctx):
                 q.append('leeway=%d' % leeway)
             if depth is not None:
                 q.append('depth=%d' % depth)
-            if rng.random() < 0.3:
-                q.append('drm=all')
+            # every template is fetched at least once with a DRM selection (clear-only tracks listed beside encrypted ones
+            # get the same query string) and once without
+            if trial % 2 == 1:
+                q.append(rng.choice(['drm=all', 'drm=clearkey', 'drm=playready-moov', 'drm=marlin,clearkey-cenc']))
             url = '/dash/live/bbb/%s?%s' % (tmpl, '&'.join(q))
             with Clock(now):
                 r = c.get(url)
@@ -198,9 +200,15 @@ def advertised_suite(ctx):
                     continue
                 adv = advertised_urls(mpd, us_since_epoch(now))
                 if ctx.quick() and len(adv) > 40:
+                    # every init segment, and the two oldest and two newest segments of EVERY representation
                     keep = [a for a in adv if a[0] == 'init']
-                    rest = [a for a in adv if a[0] != 'init']
-                    adv = keep + rest[:8] + rest[-8:]
+                    by_rep = {}
+                    for a in adv:
+                        if a[0] != 'init':
+                            by_rep.setdefault(a[2]['rep'], []).append(a)
+                    for lst in by_rep.values():
+                        keep += lst[:2] + (lst[-2:] if len(lst) > 4 else lst[2:])
+                    adv = keep
                 for kind, u, info in adv:
                     rr = c.get(local_path(u))
                     n_req += 1
